@@ -302,7 +302,7 @@ def stepCore (cx : Ctx) (w : World) (ws : List String) : StepOut :=
     match parseReg r, n.toNat?, t.toNat? with
     | some r, some n, some t =>
       let e := sh.elem t
-      elemOp r (Model.resize (getI r) n e) (Spec.resize dr (getS r) n e.rows) false e.flat
+      elemOp r (Model.resize dr (getI r) n e) (Spec.resize dr (getS r) n e.rows) false e.flat
     | _, _, _ => badOp w
   | ["extend_from_slice", r, q] | ["extend_refs", r, q] =>
     match parseReg r, parseReg q with
